@@ -22,7 +22,7 @@ OUT = os.environ.get('PYVC_OUT', HERE)
 
 TRUSTED_BASE = [
     "pyvc (this repository's AST symbolic executor and its models of Python builtins, /verif/pyvc)",
-    "z3 5.1.0 (Python API) and cvc5 1.0.3 (CLI) as SMT back ends",
+    "z3 5.1.0 (Python API) and cvc5 1.4.0 (Python API, in a worker subprocess with a hard deadline) as SMT back ends",
     "CPython re._parser (used to read the real patterns) and the translation to SMT RegLan (pyvc/rx.py)",
     "builtin contracts: list.sort is a stable permutation ordered by key (reverse=True descending, ties keep order); "
     "list.reverse; dict insertion order; str methods as modelled in pyvc/models.py",
